@@ -468,3 +468,80 @@ pub fn drive_c02pairs(seed: u64, thorough: bool, out: &mut dyn Write) -> usize {
     }
     e.id
 }
+
+pub fn dur_boundary() -> Vec<i64> {
+    let mut v: Vec<i64> = vec![0, 1, 999, 1000, 1001, 1500, 999_999, 1_000_000, 1_500_000, 999_999_999, 1_000_000_000, 1_000_000_001, 1_500_000_000,
+                               59_999_999_999, 60_000_000_000, 61_000_000_000, 3_599_999_999_999, 3_600_000_000_000, 5_400_000_000_000, 3_661_007_000_000,
+                               86_400_000_000_000, i64::MAX, i64::MAX - 1, 1 << 53, 1 << 62];
+    let neg: Vec<i64> = v.iter().filter(|x| **x != 0).map(|x| -x).collect();
+    v.extend(neg);
+    v.extend_from_slice(&[i64::MIN, i64::MIN + 1]);
+    v
+}
+
+/// C15: durations print, parse, add, subtract and compare exactly.
+pub fn drive_c15(seed: u64, thorough: bool, out: &mut dyn Write) -> usize {
+    let mut e = Emit { out, id: 0 };
+    let mut rng = Rng::new(seed);
+    let mut ns: Vec<i64> = dur_boundary();
+    let extra = if thorough { 4000 } else { 300 };
+    for _ in 0..extra {
+        let mag = (rng.next_u64() >> rng.below(64)) as i64;
+        ns.push(if rng.chance(1, 2) { mag } else { mag.wrapping_neg() });
+    }
+    let s = |x: String| Value::String(Arc::new(x));
+    let mut canon: Vec<String> = vec![];
+    for n in &ns {
+        let d = Value::Duration(chrono::Duration::nanoseconds(*n));
+        let vars = vec![("a".to_string(), d.clone())];
+        let o = prog_apply("string(a)", &vars);
+        if let Some(cp) = o["v"]["cp"].as_array() {
+            canon.push(cp.iter().map(|c| char::from_u32(c.as_u64().unwrap() as u32).unwrap()).collect());
+        }
+        e.rec("tostr", "var", &d, &Value::Null, "string(a)", o);
+        let o = prog_apply("duration(string(a)) == a", &vars);
+        e.rec("durrt", "var", &d, &Value::Null, "duration(string(a)) == a", o);
+    }
+    // well-formed spellings that are not canonical, and the mutation grammar
+    let mut strs: Vec<String> = vec!["1h30m", "1.5h", "90m", "1h30m0s", "0.5s", ".5s", "1.s", "1us", "1µs", "1μs", "1ms1us1ns", "0", "-0", "+0", "+1s", "-1.5ms", "0h0m0s", "2562047h47m16.854775807s",
+        "2562047h47m16.854775808s", "-2562047h47m16.854775808s", "-2562047h47m16.854775809s", "9223372036854775807ns", "9223372036854775808ns", "0.9999999999ns", "1.9999999999999999ns",
+        "00001s", "1.0000000000000000000000000001s", "100000000000000000000h", "1s1s", "1m1h", "0.000000001s", "0.0000000001s", "",
+        " ", "1", "s", "h", ".s", ".", "1e3s", "1E3s", "1e-3s", "infs", "inf", "nans", "nan", "NaNs", "1 s", " 1s", "1s ", "1s garbage", "1sx", "1hh", "--1s", "+-1s", "-+1s", "1s-", "1,5s", "0x10s",
+        "1d", "1w", "1y", "１s", "1S", "1H", "1.5.5s", "1..5s", "-", "+", "1h-30m", "1h 30m", "١s"].iter().map(|x| x.to_string()).collect();
+    for c in canon.iter().take(if thorough { 400 } else { 80 }) {
+        strs.push(c.clone());
+        for m in 0..8 {
+            let mut t = c.clone();
+            match m {
+                0 => t.push('x'),
+                1 => t.push(' '),
+                2 => t.push('1'),
+                3 => { t.pop(); }
+                4 => t = format!("-{}", t),
+                5 => t = format!("{}e3", t),
+                6 => t = t.replace('s', " s"),
+                _ => t = format!(" {}", t),
+            }
+            strs.push(t);
+        }
+    }
+    for t in &strs {
+        let v = s(t.clone());
+        let o = prog_apply("duration(a)", &[("a".to_string(), v.clone())]);
+        e.rec("durparse", "var", &v, &Value::Null, "duration(a)", o);
+    }
+    // arithmetic and comparison on exact nanosecond counts
+    let b = dur_boundary();
+    for x in &b {
+        for y in &b {
+            if !thorough && !rng.chance(1, 3) {
+                continue;
+            }
+            let (a, bb) = (Value::Duration(chrono::Duration::nanoseconds(*x)), Value::Duration(chrono::Duration::nanoseconds(*y)));
+            for op in ["add", "sub", "eq", "lt", "le", "gt", "ge", "ne"] {
+                e.binary(op, &a, &bb, op == "add" || op == "sub", false);
+            }
+        }
+    }
+    e.id
+}
